@@ -269,49 +269,67 @@ Proof. by_ascii c. Qed.
 Lemma idx_not_sep c : is_digit c || Ascii.eqb c "?"%char = true -> mem_ascii c "] " = false.
 Proof. by_ascii c. Qed.
 
-Lemma src1_facts o p : pin_facts p -> annot_pin_ok o p = true -> single_facts o p ->
-  let SRC := (annot_pre o p ++ " " ++ expl1 p) ++ nl in
-  nonempty (strip SRC) = true /\ containsb "#" SRC = false /\ startswith SRC " via" = false /\
-  (if prefixb "[" (strip SRC) then match partition_str "] " (strip SRC) with (_, _, r) => r end else strip SRC) = expl1 p.
+Record comment_facts (o : opts) (p : pin) : Prop := {
+  cf_ne : nonempty (comment1 o p) = true;
+  cf_tight : tight (comment1 o p) = true;
+  cf_nonl : forall_chars (neqc nlc) (comment1 o p) = true
+}.
+
+Lemma comment1_facts o p : pin_facts p -> comment_facts o p.
 Proof.
-  intros F Ha SF SRC. destruct (expl1_facts p F) as [E1 E2 E3 E4].
+  intros F. destruct (expl1_facts p F) as [E1 E2 E3 E4].
   assert (nonempty (expl1 p) = true) as En by (eapply first_ok_nonempty; exact E3).
-  assert (tight (expl1 p) = true) as Et.
-  { apply tight_intro; [eapply first_ok_impl; [apply plain_nonspace|exact E3]|eapply last_ok_impl; [apply plain_nonspace|exact E4]]. }
+  unfold comment1, url1. destruct (url_w o p) as [u|] eqn:Eu.
+  - destruct (url_w_facts o p u F Eu) as [Hpl [Hun _]].
+    constructor; unfold comment1, url1; rewrite Eu.
+    + apply nonempty_app_l; exact En.
+    + apply tight_intro.
+      * rewrite first_ok_app by exact En. eapply first_ok_impl; [apply plain_nonspace|exact E3].
+      * rewrite last_ok_app by (apply nonempty_app_r; exact Hun). rewrite last_ok_app by exact Hun.
+        apply plain_last_nonspace; assumption.
+    + rewrite !forall_chars_app, E2, (forall_chars_impl _ _ _ plain_nonl Hpl). reflexivity.
+  - constructor; unfold comment1, url1; rewrite Eu, append_nil_r; [exact En| |exact E2].
+    apply tight_intro; [eapply first_ok_impl; [apply plain_nonspace|exact E3]|eapply last_ok_impl; [apply plain_nonspace|exact E4]].
+Qed.
+
+Lemma src1_facts o p : pin_facts p -> annot_pin_ok o p = true -> single_facts o p ->
+  let SRC := (annot_pre o p ++ " " ++ comment1 o p) ++ nl in
+  nonempty (strip SRC) = true /\ startswith (strip SRC ++ " ") "via " = false /\
+  (if prefixb "[" (strip SRC) then match partition_str "] " (strip SRC) with (_, _, r) => r end else strip SRC) = comment1 o p.
+Proof.
+  intros F Ha SF SRC. destruct (comment1_facts o p F) as [Cn Ct Cl].
+  assert (last_ok nonspace (comment1 o p) = true) as Clast.
+  { unfold tight in Ct. apply andb_true_iff in Ct as [_ Ct]. exact Ct. }
   subst SRC. unfold annot_pre. unfold annot_pin_ok in Ha. destruct (o_annot o) as [a|] eqn:Ea.
   - apply andb_true_iff in Ha as [Hi _]. unfold idx_ok in Hi. apply andb_true_iff in Hi as [Hin Hi].
-    set (t := idx_text a (p_name p)) in *.
-    assert (strip (((" [" ++ t ++ "]") ++ " " ++ expl1 p) ++ nl) = ("[" ++ t) ++ "] " ++ expl1 p) as ->.
+    set (t := idx_text a (p_name p)) in *. set (cm := comment1 o p) in *.
+    assert (strip (((" [" ++ t ++ "]") ++ " " ++ cm) ++ nl) = ("[" ++ t) ++ "] " ++ cm) as ->.
     { rewrite strip_nl_r. rewrite !append_assoc.
-      change (" [" ++ t ++ "]" ++ " " ++ expl1 p) with (" " ++ ("[" ++ t ++ "]" ++ " " ++ expl1 p)).
+      change (" [" ++ t ++ "]" ++ " " ++ cm) with (" " ++ ("[" ++ t ++ "]" ++ " " ++ cm)).
       rewrite strip_ws_l by reflexivity. rewrite ?append_assoc.
-      change ("[" ++ t ++ "] " ++ expl1 p) with ("[" ++ t ++ "]" ++ " " ++ expl1 p).
+      change ("[" ++ t ++ "] " ++ cm) with ("[" ++ t ++ "]" ++ " " ++ cm).
       apply strip_tight. apply tight_intro; [reflexivity|].
-      rewrite (last_ok_app nonspace "[" (t ++ "]" ++ " " ++ expl1 p)) by (apply nonempty_app_r; reflexivity).
-      rewrite (last_ok_app nonspace t ("]" ++ " " ++ expl1 p)) by reflexivity.
-      rewrite (last_ok_app nonspace "]" (" " ++ expl1 p)) by reflexivity.
-      rewrite (last_ok_app nonspace " " (expl1 p)) by exact En.
-      eapply last_ok_impl; [apply plain_nonspace|exact E4]. }
-    split; [|split; [|split]].
+      rewrite (last_ok_app nonspace "[" (t ++ "]" ++ " " ++ cm)) by (apply nonempty_app_r; reflexivity).
+      rewrite (last_ok_app nonspace t ("]" ++ " " ++ cm)) by reflexivity.
+      rewrite (last_ok_app nonspace "]" (" " ++ cm)) by reflexivity.
+      rewrite (last_ok_app nonspace " " cm) by exact Cn. exact Clast. }
+    split; [|split].
     + apply nonempty_app_l. reflexivity.
-    + rewrite containsb_char. rewrite !forall_chars_app. rewrite E1.
-      rewrite (forall_chars_impl _ (neqc "#"%char) _ (fun c Hc => tok_nohash c (idx_tok c Hc)) Hi). reflexivity.
     + reflexivity.
-    + assert (prefixb "[" (("[" ++ t) ++ "] " ++ expl1 p) = true) as -> by reflexivity.
+    + assert (prefixb "[" (("[" ++ t) ++ "] " ++ cm) = true) as -> by reflexivity.
       rewrite partition_str_hit; [reflexivity|reflexivity| |].
       * apply (containsb_prefix_false "]" " "). rewrite containsb_char. rewrite forall_chars_app.
         rewrite (forall_chars_impl _ (neqc "]"%char) _ idx_no_rb Hi). reflexivity.
       * rewrite last_ok_app by exact Hin. pose proof (forall_chars_last _ _ Hi Hin) as Hl. unfold last_ok in *.
         destruct (last_char t) as [x|]; [|discriminate]. apply idx_not_sep. exact Hl.
   - destruct (sf_via o p SF Ea) as [V1 V2].
-    assert (strip (("" ++ " " ++ expl1 p) ++ nl) = expl1 p) as ->.
-    { rewrite strip_nl_r. change ("" ++ " " ++ expl1 p) with (" " ++ expl1 p). rewrite strip_ws_l by reflexivity.
-      apply strip_tight; exact Et. }
-    split; [|split; [|split]].
-    + exact En.
-    + rewrite containsb_char. rewrite !forall_chars_app. rewrite E1. reflexivity.
-    + change (("" ++ " " ++ expl1 p) ++ nl) with ((" " ++ expl1 p) ++ nl). rewrite append_assoc. exact V1.
-    + rewrite V2. reflexivity.
+    assert (strip (("" ++ " " ++ comment1 o p) ++ nl) = comment1 o p) as ->.
+    { rewrite strip_nl_r. change ("" ++ " " ++ comment1 o p) with (" " ++ comment1 o p). rewrite strip_ws_l by reflexivity.
+      apply strip_tight; exact Ct. }
+    split; [exact Cn|]. split; [exact V1|].
+    assert (prefixb "[" (comment1 o p) = false) as ->; [|reflexivity].
+    destruct (expl1_facts p F) as [_ _ E3 _]. unfold comment1.
+    rewrite prefixb_app_long; [exact V2|]. destruct (expl1 p); [discriminate|cbn; lia].
 Qed.
 
 Lemma strip_first_alnum s : first_ok is_alnum s = true -> first_ok is_alnum (strip s) = true.
@@ -326,9 +344,40 @@ Definition out_line (o : opts) (p : pin) (pad' : string) : string := nv p ++ (" 
 
 Lemma out_line_shape o p pad' :
   out_line o p pad' ++ nl =
-  (nv p ++ (" " ++ pad') ++ hash_pre o p) ++ String "#" ((annot_pre o p ++ " " ++ expl1 p) ++ nl).
+  (nv p ++ (" " ++ pad') ++ hash_pre o p) ++ String "#" ((annot_pre o p ++ " " ++ comment1 o p) ++ nl).
 Proof.
   unfold out_line, data1, hash_pre, annot_pre. rewrite !append_assoc. reflexivity.
+Qed.
+
+Lemma take_url_comment o p : pin_facts p -> single_facts o p ->
+  take_url (split_str ", " (comment1 o p)) =
+  (map constraint_text (p_via p), match url_w o p with Some u => u | None => "" end).
+Proof.
+  intros F SF. pose proof (sf_sep o p SF) as Hsep.
+  assert (map constraint_text (p_via p) <> []) as Hne.
+  { intros E. apply map_eq_nil in E. exact (pf_vne p F E). }
+  unfold comment1, url1. destruct (url_w o p) as [u|] eqn:Eu.
+  - destruct (url_w_facts o p u F Eu) as [Hpl [Hun Hul]].
+    destruct (rev (p_via p)) as [|x r] eqn:Er.
+    { exfalso. apply rev_nil_inv in Er. exact (pf_vne p F Er). }
+    destruct (sf_usep o p SF u x r Eu Er) as [U1 U2].
+    assert (map constraint_text (p_via p) = rev (constraint_text x :: map constraint_text r)) as Ecs.
+    { rewrite <- (rev_involutive (p_via p)), Er. rewrite map_rev. reflexivity. }
+    rewrite Ecs. unfold expl1. rewrite Ecs. rewrite join_rev_snoc.
+    assert (Forall sepfree (map constraint_text (p_via p))) as Hsep' by exact Hsep.
+    rewrite Ecs in Hsep'. apply Forall_rev in Hsep'. rewrite rev_involutive in Hsep'.
+    inversion Hsep' as [|? ? _ Hr]; subst.
+    rewrite split_str_join; [|reflexivity| |].
+    + unfold take_url. rewrite rev_involutive.
+      change (constraint_text x ++ " " ++ u) with (constraint_text x ++ String " "%char u).
+      rewrite rpartition_hit by (eapply forall_chars_impl; [|exact Hpl]; intros c; by_ascii c).
+      rewrite Hul. pose proof (via_facts_all p F) as Hv. rewrite Forall_forall in Hv.
+      assert (In x (p_via p)) as Hin by (apply in_rev; rewrite Er; left; reflexivity).
+      rewrite (ctext_nonempty x (Hv x Hin)). reflexivity.
+    + intros E. apply (f_equal (@rev string)) in E. rewrite rev_involutive in E. discriminate.
+    + apply Forall_rev. constructor; [|exact Hr]. split; [exact U1|].
+      rewrite last_ok_app by (apply nonempty_app_r; exact Hun). rewrite last_ok_app by exact Hun. exact U2.
+  - rewrite append_nil_r. unfold expl1. rewrite (split_str_join ", " _ eq_refl Hne Hsep). exact (sf_take o p SF Eu).
 Qed.
 
 Lemma single_line_entry o p pad' : pin_facts p -> annot_pin_ok o p = true -> single_facts o p ->
@@ -336,13 +385,14 @@ Lemma single_line_entry o p pad' : pin_facts p -> annot_pin_ok o p = true -> sin
   exists t, forall_chars is_space t = true /\
     startswith (strip (out_line o p pad' ++ nl)) "--" = false /\
     line_step "" (out_line o p pad' ++ nl) =
-      match single (out_line o p pad' ++ nl) with Err e => Err e | Ok r => Ok ("", r) end /\
-    single_entry (out_line o p pad' ++ nl) =
-      Ok (Some (mkEntry (nv p ++ t) (hash_w o p) (map constraint_text (p_via p)) "")).
+      match single false (out_line o p pad' ++ nl) with Err e => Err e | Ok r => Ok ("", r) end /\
+    single_entry false (out_line o p pad' ++ nl) =
+      Ok (Some (mkEntry (nv p ++ t) (hash_w o p) (map constraint_text (p_via p))
+                        (match url_w o p with Some u => u | None => "" end))).
 Proof.
   intros F Ha SF Hpad. destruct (nv_facts p F) as [H1 [_ [_ [_ [H5 _]]]]].
   destruct (head1_facts o p pad' F Hpad) as [HB [RP [t [HRP [HRPn [HRPc [Ht Hsplit]]]]]]].
-  destruct (src1_facts o p F Ha SF) as [S1 [S2 [S3 S4]]].
+  destruct (src1_facts o p F Ha SF) as [S1 [S3 S4]].
   exists t. split; [exact Ht|]. split; [|split].
   - apply alnum_first_not_special. apply strip_first_alnum. unfold out_line.
     rewrite !append_assoc. rewrite first_ok_app by exact H5. exact H1.
@@ -351,11 +401,9 @@ Proof.
   - unfold single_entry. rewrite out_line_shape. rewrite (partition_char_hit "#"%char _ _ HB).
     rewrite HRP, HRPn. cbn [negb]. change l_hash_split with "--hash=". rewrite Hsplit. cbn [hd].
     rewrite (req_lex_pin p t F Ht). rewrite (pf_vspec p F). cbn [negb].
-    rewrite S1, S2. change l_via_sp with " via". rewrite S3. cbn [negb orb].
+    rewrite S1. change l_via_word with "via ". change l_via_pad with " ". rewrite S3. cbn [negb orb].
     change l_idx_close with "] ". rewrite S4. change l_src_sep with ", ".
-    unfold expl1. rewrite split_str_join; [|reflexivity| |exact (sf_sep o p SF)].
-    + destruct (hash_w o p); reflexivity.
-    + intros E. apply map_eq_nil in E. exact (pf_vne p F E).
+    rewrite (take_url_comment o p F SF). destruct (hash_w o p); reflexivity.
 Qed.
 
 Lemma single_line_load o p pad' ls acc : pin_facts p -> annot_pin_ok o p = true -> single_facts o p ->
@@ -366,13 +414,13 @@ Proof.
   cbn [load_lines]. rewrite Hd. cbn [andb]. rewrite Hstep.
   unfold single. rewrite Hent. unfold add_sources. cbn [e_req e_hash e_sources e_url].
   rewrite (req_lex_pin p t F Ht). rewrite (pf_vpin p F). rewrite (map_result_vias _ (via_facts_all p F)).
-  cbn [nonempty push]. f_equal. f_equal. unfold erase_pin. f_equal.
+  cbn [push]. f_equal. f_equal. unfold erase_pin. f_equal.
   - unfold hash_w. destruct (p_hash p) as [h|] eqn:Eh; [|destruct (o_hashes o); reflexivity].
     pose proof (pf_hash p F h Eh) as Hh. unfold hash_ok in Hh.
     apply andb_true_iff in Hh as [Hh _]. apply andb_true_iff in Hh as [Htk _].
     rewrite (token_nonempty _ Htk). rewrite andb_true_r. reflexivity.
-  - pose proof (sf_url o p SF) as Hu. unfold url_w in Hu. destruct (p_url p); [|destruct (o_urls o); reflexivity].
-    destruct (o_urls o); [discriminate|reflexivity].
+  - unfold url_w. destruct (p_url p) as [u|] eqn:Eu; [|destruct (o_urls o); reflexivity].
+    destruct (o_urls o); [|reflexivity]. rewrite (url_nonempty u (pf_url p F u Eu)). reflexivity.
 Qed.
 
 Lemma single_lines_load o (pad : pin -> string) v : forall acc,
@@ -398,7 +446,7 @@ Proof.
   destruct (expl1 p) as [|c0 E'] eqn:EE; [discriminate|]. cbn [first_ok] in E3.
   cbn [forall_chars] in E1. apply andb_true_iff in E1 as [E1 _].
   apply (strip_chars_nonempty "# " _ c0 (plain_not_in_hash_sp c0 E3 E1)).
-  unfold data1. rewrite EE. rewrite !forall_chars_app. cbn [forall_chars]. unfold neqc at 5.
+  unfold data1, comment1. rewrite EE. rewrite !forall_chars_app. cbn [forall_chars]. unfold neqc at 5.
   rewrite Ascii.eqb_refl. cbn [negb andb]. rewrite !andb_false_r. reflexivity.
 Qed.
 
@@ -463,7 +511,7 @@ Qed.
 
 Lemma data1_oneline o p : pin_facts p -> annot_pin_ok o p = true -> oneline_b (data1 o p) = true.
 Proof.
-  intros F Ha. destruct (expl1_facts p F) as [_ E2 _ _]. unfold data1, oneline_b.
+  intros F Ha. destruct (comment1_facts o p F) as [_ _ E2]. unfold data1, oneline_b.
   rewrite !forall_chars_app. rewrite E2.
   assert (forall_chars (neqc nlc) match hash_w o p with Some h => "--hash=" ++ h ++ " " | None => "" end = true) as ->.
   { unfold hash_w. destruct (p_hash p) as [h|] eqn:Eh; [|reflexivity]. destruct (o_hashes o && nonempty h); [|reflexivity].
@@ -490,7 +538,7 @@ Proof.
   assert (pass_one o v = concat_str (map (fun p => line1 o p ++ nl) v)) as Hp1.
   { unfold pass_one, sort_pins. unfold names_sorted in Hsorted. rewrite (sort_by_sorted _ v Hsorted).
     f_equal. apply map_ext_in. intros p Hp. rewrite Forall_forall in HF, HS.
-    apply pin_text_single; [exact Hm|apply HF; exact Hp|exact (sf_url o p (HS p Hp))]. }
+    apply pin_text_single; [exact Hm|apply HF; exact Hp]. }
   assert (load_entries (write o v) = Ok (erase o v)) as HL.
   { unfold load_entries, write. rewrite Hm. rewrite Hp1. rewrite directives_text_lines.
     assert ((match o_annot o with Some a => header_text a | None => "" end) =
@@ -527,12 +575,5 @@ Proof.
       rewrite readlines_nil, app_nil_r.
       rewrite (skip_all _ _ [] Hhs), (skip_all _ _ [] Hds).
       rewrite map_map. rewrite (single_lines_load o pad v [] HF Hannot HS Hpad). reflexivity. }
-  unfold load. rewrite HL. f_equal. unfold erase.
-  clear HL Hp1 HS Hsingle. induction HF as [|p l Fp _ IH]; [reflexivity|].
-  cbn [map filter]. cbn [forallb] in *.
-  apply andb_true_iff in Hpins as [_ Hpins]. apply andb_true_iff in Hannot as [_ Hannot].
-  assert (names_sorted l = true) as Hsl.
-  { unfold names_sorted in *. cbn [sorted_by] in Hsorted. destruct l; [reflexivity|]. apply andb_true_iff in Hsorted as [_ Hsl]. exact Hsl. }
-  change (p_version (erase_pin o p)) with (p_version p). rewrite (pf_vmiss p Fp). cbn [negb]. f_equal.
-  apply IH; assumption.
+  unfold load. exact HL.
 Qed.
